@@ -1,3 +1,4 @@
+import Props.FnTie
 import Props.C06
 import JwtProofs.Creds
 import JwtProofs.Decode
